@@ -52,7 +52,7 @@ package syntax
 //@ func arrayHasPrefix(prefix, subject)
 //@   tags C14, C10
 //@   assigns fresh-only
-//@   modifies rel.arrayValueEnumerator
+//@   modifies rel.arrayValueEnumerator, enset, enseen, encur, enord, enpos      // enumeration cursors (ghost convention: 35_sets.spec)
 //@   returns (v, err)
 //@   requires prefix != nil && validArray(subject) && validSet(prefix)
 //@   ensures[C14] kinds: (err == nil) == (!istrue(prefix) || prefix is rel.Array || prefix is rel.EmptySet)
@@ -68,7 +68,7 @@ package syntax
 //@ func arrayTrimPrefix(prefix, subject)
 //@   tags C14, C10
 //@   assigns fresh-only
-//@   modifies rel.arrayValueEnumerator
+//@   modifies rel.arrayValueEnumerator, enset, enseen, encur, enord, enpos, mitset, mitseen      // enumeration cursors (ghost convention: 35_sets.spec)
 //@   returns (v, err)
 //@   requires prefix != nil && validArray(subject) && validSet(prefix)
 //@   ensures[C14] kinds: (err == nil) == (!istrue(prefix) || prefix is rel.Array || prefix is rel.EmptySet)
@@ -85,6 +85,7 @@ package syntax
 //@ func arrayTrimSuffix(suffix, subject)
 //@   tags C14, C10
 //@   assigns fresh-only
+//@   modifies enset, enseen, encur, enord, enpos, mitset, mitseen      // enumeration cursors (ghost convention: 35_sets.spec)
 //@   returns (v, err)
 //@   requires suffix != nil && validArray(subject) && validSet(suffix)
 //@   ensures[C14] kinds: (err == nil) == (!istrue(suffix) || suffix is rel.Array || suffix is rel.EmptySet)
@@ -100,6 +101,16 @@ package syntax
 // freshOrNil(s): s is nil/empty-capacity or was allocated by this call (so append to it never writes old memory)
 //@ spec freshOrNil(s) = cap(s) == 0 || fresh(s)
 
+// join: textbook = the elements of subject concatenated, with the joiner BETWEEN consecutive elements, i.e. before every
+// element except the first, whatever the earlier elements are (empty ones included). jstart / alenV: 50_seq.smt2;
+// element i of the subject starts at position jstart(.., off+i, |joiner|) of the result, the joiner copy before it (i >= 1)
+// at jstart(.., off+i, |joiner|) - |joiner|, and the result has jstart(.., off+n, |joiner|) - |joiner| items.
+// Claimed for sequences of sequences: dense subject whose elements are dense canonical arrays or the empty set (joinable).
+// (the last conjunct of joinable — the element arrays existed before the call — is true of every input; the engine does not
+//  derive it for slices nested inside heap values, and without it an in-place append could alias an element's row)
+//@ spec joinable(s) = forall i in 0..len(s) :: (s[i] is rel.Array ==> nn(s[i].(rel.Array).values) && !fresh(s[i].(rel.Array).values))
+//@ spec joinArgs(joiner, subject) = dense(subject) && joinable(subject.values) && (joiner is rel.Array ==> nn(joiner.(rel.Array).values))
+//@ spec joinLen(joiner, vals, n) = jstart(row(vals), vals.off, vals.off + n, alenV(joiner)) - alenV(joiner)
 //@ func arrayJoin(joiner, subject)
 //@   tags C14, C10
 //@   assigns fresh-only
@@ -107,7 +118,17 @@ package syntax
 //@   requires validArray(subject) && validSet(joiner)
 //@   ensures[C14] kinds: !(joiner is rel.Array || joiner is rel.EmptySet) ==> err != nil && v == nil
 //@   ensures[C14] errnil: err != nil ==> v == nil
+//@   ensures[C14] join.kind: err == nil && old(joinArgs(joiner, subject)) ==> (joinLen(joiner, subject.values, len(subject.values)) == 0 ? v is rel.EmptySet : v is rel.Array && v.(rel.Array).offset == 0)
+//@   ensures[C14] join.len: err == nil && old(joinArgs(joiner, subject)) && v is rel.Array ==> len(v.(rel.Array).values) == joinLen(joiner, subject.values, len(subject.values))
 //@   loop 0 invariant fr: fresh(result)
+//@   loop 0 invariant len: $idx <= len(subject.values) && len(result) == ($idx == 0 ? 0 : joinLen(joiner, subject.values, $idx))
+//@   loop 0 invariant nnres: old(joinArgs(joiner, subject)) ==> nn(result)
+// not claimed (the solver does not finish the inductive steps within the budget; the init obligations and the exits prove):
+//   ensures elems: (joiner is rel.Array || joiner is rel.EmptySet) ==> ((err == nil) <==> (forall i in 0..len(subject.values) :: subject.values[i] is rel.Array || subject.values[i] is rel.EmptySet))
+//   ensures join.elem: ... v is rel.Array ==> forall i in 0..len(subject.values), k in 0..alenV(subject.values[i]) :: v.values[jstart(.., off+i, |joiner|) + k] == subject.values[i].values[k]
+//   ensures join.sep:  ... forall i in 1..len(subject.values), k in 0..|joiner| :: v.values[jstart(.., off+i, |joiner|) - |joiner| + k] == joiner.values[k]
+//   (with the corresponding loop invariants over `result`). The length clause already separates "joiner before every element but the
+//   first" from "joiner only after a non-empty prefix": see selftest C14-join-*.
 
 //@ func arraySplit(delimiter, subject)
 //@   tags C14, C10
@@ -183,7 +204,7 @@ package syntax
 //@ func stdSeqHasPrefix(ctx, prefix, subject)
 //@   tags C14, C10
 //@   assigns fresh-only
-//@   modifies rel.arrayValueEnumerator
+//@   modifies rel.arrayValueEnumerator, enset, enseen, encur, enord, enpos
 //@   returns (v, err)
 //@   requires prefix != nil && subject != nil && validSet(subject) && validSet(prefix)
 //@   ensures[C14] mismatch: (subject is rel.String || subject is rel.Bytes) ==> ((err == nil) == okFor(subject, prefix))
@@ -211,6 +232,7 @@ package syntax
 //@ func stdSeqTrimSuffix(ctx, suffix, subject)
 //@   tags C14, C10
 //@   assigns fresh-only
+//@   modifies enset, enseen, encur, enord, enpos, mitset, mitseen
 //@   returns (v, err)
 //@   requires suffix != nil && subject != nil && validSet(subject) && validSet(suffix)
 //@   ensures[C14] mismatch: (subject is rel.String || subject is rel.Bytes) ==> ((err == nil) == okFor(subject, suffix))
@@ -223,7 +245,7 @@ package syntax
 //@ func stdSeqTrimPrefix(ctx, prefix, subject)
 //@   tags C14, C10
 //@   assigns fresh-only
-//@   modifies rel.arrayValueEnumerator
+//@   modifies rel.arrayValueEnumerator, enset, enseen, encur, enord, enpos, mitset, mitseen
 //@   returns (v, err)
 //@   requires prefix != nil && subject != nil && validSet(subject) && validSet(prefix)
 //@   ensures[C14] mismatch: (subject is rel.String || subject is rel.Bytes) ==> ((err == nil) == okFor(subject, prefix))
@@ -234,7 +256,7 @@ package syntax
 //@ func stdSeqConcat(ctx, seq)
 //@   tags C14, C10
 //@   assigns fresh-only
-//@   modifies sbout
+//@   modifies sbout, rel.arrayValueEnumerator, enset, enseen, encur, enord, enpos
 //@   returns (v, err)
 //@   requires seq != nil && validSet(seq)
 //@   ensures[C14] notarray: !(seq is rel.Array) && !(seq is rel.Set && !istrue(seq)) ==> err != nil
